@@ -66,8 +66,10 @@ func GetFilePathsUnderDirectoryWithIgnore(path string, index *store.Index, ignor
 		} else {
 			filePath = fmt.Sprintf("%s/%s", path, file.Name())
 		}
-		// tracked file is never skipped
-		if _, _, isRegistered := index.GetEntry([]byte(filePath)); !isRegistered && ignore.IsIncluded(filePath, index) {
+		// a tracked file, or a directory with tracked files beneath it, is never skipped
+		_, _, isRegistered := index.GetEntry([]byte(filePath))
+		holdsTracked := file.IsDir() && index.IsRegisteredAsDirectory(filePath)
+		if !isRegistered && !holdsTracked && ignore.IsIncluded(filePath, index) {
 			continue
 		}
 
